@@ -49,6 +49,12 @@ func (a *AggSender) VerifCheckInitialStatus(ctx context.Context) string {
 	return a.status.LastError
 }
 
+// VerifFlowCheckInitialStatus is the flow's own start-up check, which Start runs right after the reconciliation (and
+// panics on).
+func (a *AggSender) VerifFlowCheckInitialStatus(ctx context.Context) error {
+	return a.flow.CheckInitialStatus(ctx)
+}
+
 // VerifSendCertificates is sendCertificates (the main loop) returning after n iterations.
 func (a *AggSender) VerifSendCertificates(ctx context.Context, n int) { a.sendCertificates(ctx, n) }
 
